@@ -39,7 +39,7 @@ use tracing::{error, trace, warn};
 
 use crate::base::Message;
 use crate::base::StreamTarget;
-use crate::base::iana::OptRcode;
+use crate::base::iana::{OptRcode, Rcode};
 use crate::base::message_builder::AdditionalBuilder;
 use crate::base::wire::Composer;
 use crate::net::server::buf::BufSource;
@@ -48,6 +48,7 @@ use crate::net::server::message::Request;
 use crate::net::server::metrics::ServerMetrics;
 use crate::net::server::service::Service;
 use crate::net::server::sock::AsyncDgramSock;
+use crate::net::server::util::mk_builder_for_target;
 use crate::net::server::util::mk_error_response;
 use crate::net::server::util::to_pcap_text;
 use crate::utils::config::DefMinMax;
@@ -573,10 +574,29 @@ where
                 trace!(
                     "Ignoring received message because it is a reply, not a query."
                 );
-                let response = mk_error_response::<Buf::Output, Svc::Target>(
-                    &msg,
-                    OptRcode::FORMERR,
-                );
+                let mut response =
+                    mk_error_response::<Buf::Output, Svc::Target>(
+                        &msg,
+                        OptRcode::FORMERR,
+                    );
+
+                // This response does not pass through the middleware that
+                // enforces the size limit and no EDNS payload size was
+                // negotiated, so RFC 1035 section 4.2.1 limits it to 512
+                // bytes. The question section copied from the received
+                // message can make it larger than that, in which case we
+                // fall back to a response consisting of the header only.
+                if response.as_slice().len() > 512 {
+                    let mut builder = mk_builder_for_target::<Svc::Target>();
+                    let header = builder.header_mut();
+                    header.set_id(msg.header().id());
+                    header.set_qr(true);
+                    header.set_opcode(msg.header().opcode());
+                    header.set_rd(msg.header().rd());
+                    header.set_rcode(Rcode::FORMERR);
+                    response = builder.additional();
+                }
+
                 let dispatcher = self.request_dispatcher.clone();
                 tokio::spawn(async move {
                     dispatcher.send_response(addr, response).await;
